@@ -94,6 +94,10 @@ V_Apps(e, okR, c, L, L2, rec, pkt0) ==
 \cup If(isDeliv /\ q.ret /\ q.k = "mt" /\ e.pkt.data.rcv \in Users
           /\ MtBal(L2, q.pcls, q.oid, e.pkt.data.rcv) # MtBal(L, q.pcls, q.oid, e.pkt.data.rcv) + q.amt,
         Lbl("C06", "return_did_not_restore_original", "mt:" \o ClassShape(q.pcls)))
+\cup \* ... and the voucher that travelled back is gone on the chain it left (no owner, not even the escrow account)
+     If(isDeliv /\ q.ret /\ q.k = "nft" /\ q.s \in Chains /\ NftOwner(ConvLed(rec.st[q.s]), q.ocls, q.oid) # ""
+          /\ TgOf(q.s, q.ocls, q.oid).a = q.a,
+        Lbl("C06", "returned_voucher_still_exists", "nft:" \o ClassShape(q.pcls)))
 \cup \* a return hop that is answered with an error although the token left behind is still in escrow
      If(e.act = "Recv" /\ okR /\ ranCb /\ ownApp /\ q.ret /\ ~isDeliv /\ e.pkt.data.rcv \in Users /\ e.pkt \in sent /\ q.amt > 0,
         Lbl("C06", "return_refused", q.k \o ":" \o ClassShape(q.pcls)))
